@@ -169,7 +169,42 @@ Definition mem_ch (c : N) (s : str) : bool := existsb (N.eqb c) s.
 
 Definition c_base (l : N) : option N := assoc_str [ascii_lower l] (map (fun p => (s2n (fst p), snd p)) c_bases).
 
-(* the part of parser.number() after the caret prefixes: a local-symbol-shaped token *)
+Definition starts_with_colon (s : str) : bool := match s with c :: _ => c =? 58 | [] => false end.
+
+(* the local-symbol-shaped token [tok] = what local_symbol_literal matched, once it is known
+   not to be followed by a colon *)
+Definition classify_token (sign : Z) (tok : str) : lexres :=
+  let has_dot := match last_opt tok with Some c => c =? 46 | None => false end in
+  let num := if has_dot then removelast tok else tok in
+  if mem_ch 36 num || mem_ch 95 num || mem_ch 46 num then LNotNumber
+  else if forallb is_digit num && negb (match num with [] => true | _ => false end) then
+    if has_dot then
+      match py_int 10 num with Some v => LNumber (sign * Z.of_N v) false false false | None => LUnmodelled end
+    else if mem_ch 56 num || mem_ch 57 num then
+      match py_int 10 num with
+      | Some v => if (sign =? -1)%Z then LNumber (sign * Z.of_N v) false false true
+                  else LNumber (Z.of_N v) true true false
+      | None => LUnmodelled end
+    else
+      match py_int 8 num with Some v => LNumber (sign * Z.of_N v) (sign =? 1)%Z false false | None => LUnmodelled end
+  else
+    match num with
+    | z :: l :: body =>
+        if (z =? 48) && is_alpha l then
+          match c_base l with
+          | None => LNotNumber
+          | Some base =>
+              match py_int base body with
+              | Some v => LNumber (sign * Z.of_N v) (sign =? 1)%Z false false
+              | None => LNotNumber
+              end
+          end
+        else LNotNumber
+    | _ => LNotNumber
+    end.
+
+(* the part of parser.number() after the caret prefixes: a local-symbol-shaped token.
+   re.I | re.ASCII: [a-z] matches ASCII letters only, any other character ends the token *)
 Definition plain_number (sign : Z) (s1 : str) : lexres :=
   match s1 with
   | [] => LNotNumber
@@ -177,39 +212,8 @@ Definition plain_number (sign : Z) (s1 : str) : lexres :=
       if negb (is_digit c0) then LNotNumber
       else
         let (tok, after) := span is_tokch s1 in
-        (* re.I | re.ASCII: [a-z] matches ASCII letters only, any other character ends the token *)
-        match skip after with
-             | 58 :: _ => LNotNumber            (* followed by ':' : a local label *)
-             | _ =>
-                 let has_dot := match last_opt tok with Some 46 => true | _ => false end in
-                 let num := if has_dot then removelast tok else tok in
-                 if mem_ch 36 num || mem_ch 95 num || mem_ch 46 num then LNotNumber
-                 else if forallb is_digit num && negb (match num with [] => true | _ => false end) then
-                   if has_dot then
-                     match py_int 10 num with Some v => LNumber (sign * Z.of_N v) false false false | None => LUnmodelled end
-                   else if mem_ch 56 num || mem_ch 57 num then
-                     match py_int 10 num with
-                     | Some v => if (sign =? -1)%Z then LNumber (sign * Z.of_N v) false false true
-                                 else LNumber (Z.of_N v) true true false
-                     | None => LUnmodelled end
-                   else
-                     match py_int 8 num with Some v => LNumber (sign * Z.of_N v) (sign =? 1)%Z false false | None => LUnmodelled end
-                 else
-                   match num with
-                   | 48 :: l :: body =>
-                       if is_alpha l then
-                         match c_base l with
-                         | None => LNotNumber
-                         | Some base =>
-                             match py_int base body with
-                             | Some v => LNumber (sign * Z.of_N v) (sign =? 1)%Z false false
-                             | None => LNotNumber
-                             end
-                         end
-                       else LNotNumber
-                   | _ => LNotNumber
-                   end
-             end
+        if starts_with_colon (skip after) then LNotNumber     (* followed by ':' : a local label *)
+        else classify_token sign tok
   end.
 
 (* parser.number(ctx) with terminator=never, on the text [s] at the current position *)
@@ -273,8 +277,7 @@ Definition spell (st : style) (mask : nat -> bool) (n : N) : str :=
 Definition follow_ok (rest : str) : bool :=
   match rest with
   | [] => true
-  | c :: _ => is_ascii c && negb (is_tokch c) && negb (is_word c)
-              && match skip rest with 58 :: _ => false | _ => true end
+  | c :: _ => is_ascii c && negb (is_tokch c) && negb (is_word c) && negb (starts_with_colon (skip rest))
   end.
 
 (* ------------------------------------------------------------------ 3. grouping *)
